@@ -188,7 +188,7 @@ func runLife(p *LifeProgram, tr int, tw *TraceWriter) {
 // runLifecycle creates n caches with janitors and entries holding
 // finaliser-tracked sentinels, drops them, and observes goroutines, tickers
 // and finalisers after GC.
-func runLifecycle(kind string, n, entries int, intv int64, withCb bool, tr int, tw *TraceWriter) {
+func runLifecycle(kind string, n, entries int, intv int64, withCb bool, busy bool, tr int, tw *TraceWriter) {
 	vtime.ResetTimers()
 	vtime.Set(1000)
 	runtime.GC()
@@ -206,16 +206,30 @@ func runLifecycle(kind string, n, entries int, intv int64, withCb bool, tr int, 
 		p := &LifeProgram{Kind: kind, Ctor: "New", HasIntv: true, Intv: intv, Cb: withCb}
 		caches := make([]lifeCache, n)
 		for i := range caches {
-			caches[i] = newLifeCache(p, func(string) {})
+			cb := func(string) {}
+			if busy {
+				// a slow evicted callback keeps the janitor inside a pass while the cache is dropped and finalised
+				cb = func(string) { time.Sleep(15 * time.Millisecond) }
+			}
+			caches[i] = newLifeCache(p, cb)
 			for j := 0; j < entries; j++ {
 				s := &sentinel{id: i*1000 + j}
 				runtime.SetFinalizer(s, func(*sentinel) { atomic.AddInt64(&finalized, 1) })
-				caches[i].Set("k"+string(rune('a'+j)), s, time.Hour)
+				ttl := time.Hour
+				if busy {
+					ttl = 10 * time.Microsecond
+				}
+				caches[i].Set("k"+string(rune('a'+j)), s, ttl)
 			}
 		}
 		waitTickers(t0+n, 3*time.Second)
 		created := &Event{Ev: "life", Tr: tr, Op: "created", N: n, X: int64(vtime.ActiveTickers() - t0), C0: runtime.NumGoroutine() - g0}
 		tw.Write(created)
+		if busy {
+			waitTickers(t0+n, 3*time.Second)
+			vtime.Advance(2 * intv) // every janitor starts a pass and is held in its callbacks
+			time.Sleep(2 * time.Millisecond)
+		}
 		for i := range caches {
 			caches[i] = nil
 		}
@@ -243,6 +257,7 @@ type LifeJob struct {
 		Entries int    `json:"entries"`
 		Intv    int64  `json:"intv"`
 		Cb      bool   `json:"cb"`
+		Busy    bool   `json:"busy"`
 	} `json:"lifecycle"`
 }
 
@@ -258,7 +273,7 @@ func dispatchLife(in, out, stats string) {
 	for _, l := range job.Lifecycle {
 		tr++
 		tw.Write(&Event{Ev: "reset", Tr: tr, Kind: l.Kind, Ctor: "lifecycle", HasIntv: true, Intv: l.Intv / lifeUnit, Note: "lifecycle", Unit: lifeUnit})
-		runLifecycle(l.Kind, l.N, l.Entries, l.Intv, l.Cb, tr, tw)
+		runLifecycle(l.Kind, l.N, l.Entries, l.Intv, l.Cb || l.Busy, l.Busy, tr, tw)
 	}
 	tw.Close()
 }
